@@ -62,7 +62,7 @@ int read_srec(const char *filename, Memory *memory)
   int checksum;
   int checksum_calc;
   int n;
-  int start_address = 0;
+  int error = 0;
   int line = 0;
   int start, end;
 
@@ -174,7 +174,7 @@ int read_srec(const char *filename, Memory *memory)
     if (checksum != checksum_calc)
     {
       printf("read_srec: Checksum failure on line %d!\n", line);
-      start_address = -4;
+      error = -4;
       break;
     }
 
@@ -187,6 +187,6 @@ int read_srec(const char *filename, Memory *memory)
   memory->low_address = start;
   memory->high_address = end;
 
-  return start_address;
+  return error;
 }
 
